@@ -208,3 +208,154 @@ Theorem C07_load_count_bounded :
   count <= maxLoads -> load links fuel maxLoads a loading count = TDone n -> count <= n /\ n <= maxLoads.
 Proof. exact load_count. Qed.
 Print Assumptions C07_load_count_bounded.
+
+(* ================================================================== extension: group walk, dense attributes, LZF, conversion loops *)
+From HV Require Import Model.RobustGroup Model.RobustDense Model.RobustConv.
+From HV Require Import Proofs.RobustGroup Proofs.RobustDense Proofs.RobustExt.
+From HV Require Model.Filters Proofs.RobustLzf.
+
+(* ------------------------------------------------------------------ (a) symbol-table group walk, all byte strings *)
+(* ReadGroupBTreeEntries up to the child (symbol table node) addresses: no panic; buffers bounded by the 16-bit entry count *)
+Theorem C07_group_node_no_panic :
+  forall file addr O, bytes_ok file = true -> O <= 8 ->
+  fst (gnode_read file addr O) <> Panic /\ alloc_bounded 0 2097136 file (snd (gnode_read file addr O)) /\
+  forall kids, fst (gnode_read file addr O) = Ok kids -> N.of_nat (length kids) <= 65535.
+Proof. exact gnode_read_spec. Qed.
+Print Assumptions C07_group_node_no_panic.
+
+(* ParseSymbolTableNode: no panic for every entry count; a node that parses lies inside the file *)
+Theorem C07_snod_bounded :
+  forall file addr O, bytes_ok file = true -> O <= 8 ->
+  fst (snod_parse file addr O) <> Panic /\ alloc_bounded 0 5242800 file (snd (snod_parse file addr O)) /\
+  forall es, fst (snod_parse file addr O) = Ok es ->
+             addr + 8 + N.of_nat (length es) * (2 * O + 24) <= blen file /\ N.of_nat (length es) <= 65535.
+Proof. exact snod_parse_spec. Qed.
+Print Assumptions C07_snod_bounded.
+
+(* the whole walk never panics, repaired or not; the loops are counted (structural recursion on 16-bit counts: no fuel) *)
+Theorem C07_group_walk_no_panic :
+  forall capped file addr O, bytes_ok file = true -> O <= 8 -> fst (group_btree_entries capped file addr O) <> Panic.
+Proof. exact group_btree_entries_no_panic. Qed.
+Print Assumptions C07_group_walk_no_panic.
+
+(* repaired code (notes/fixes/c07-group-node-entry-budget.patch): every request <= 4 |file| + 5242800 and the entries
+   collected fit into the file *)
+Theorem C07_group_walk_bounded :
+  forall file addr O, bytes_ok file = true -> O <= 8 ->
+  fst (group_btree_entries true file addr O) <> Panic /\
+  alloc_bounded 4 5242800 file (snd (group_btree_entries true file addr O)) /\
+  forall t, fst (group_btree_entries true file addr O) = Ok t -> t * (2 * O + 24) <= blen file.
+Proof. exact group_btree_entries_spec. Qed.
+Print Assumptions C07_group_walk_bounded.
+
+(* code as it is in /repo: n child pointers to one node of m entries collect n * m entries ... *)
+Theorem C07_group_walk_unrepaired_multiplies :
+  forall file O a es l, snod_parse file a O = (Ok es, l) ->
+  forall n total spanEnd,
+  fst (gwalk false file O (repeat a n) total spanEnd) = Ok (total + N.of_nat n * N.of_nat (length es)) /\
+  (n <> 0%nat -> In (96 * (total + N.of_nat n * N.of_nat (length es))) (snd (gwalk false file O (repeat a n) total spanEnd))).
+Proof. exact gwalk_uncapped_repeat. Qed.
+Print Assumptions C07_group_walk_unrepaired_multiplies.
+
+(* ... REFUTED bound: a 14376-byte image makes it collect 65536 entries and exceed 4 |file| + 5242800 *)
+Theorem C07_group_walk_unrepaired_refuted :
+  exists file, bytes_ok file = true /\ blen file = 14376 /\
+               fst (group_btree_entries false file 0 8) = Ok 65536 /\
+               ~ alloc_bounded 4 5242800 file (snd (group_btree_entries false file 0 8)).
+Proof. exact group_uncapped_refuted. Qed.
+Print Assumptions C07_group_walk_unrepaired_refuted.
+
+(* ------------------------------------------------------------------ (b) dense attribute readers, all byte strings *)
+Theorem C07_bt2_header_no_panic :
+  forall file addr O, bytes_ok file = true ->
+  fst (bt2_header_raw file addr O) <> Panic /\ alloc_bounded 0 38 file (snd (bt2_header_raw file addr O)) /\
+  forall root nroot total, fst (bt2_header_raw file addr O) = Ok (root, nroot, total) -> nroot <= 65535.
+Proof. exact bt2_header_raw_spec. Qed.
+Print Assumptions C07_bt2_header_no_panic.
+
+(* leaf: the record count is bounded by the bytes present (6 + 11 records <= |file|); ids are 7 bytes *)
+Theorem C07_bt2_leaf_bounded :
+  forall file addr nrec, bytes_ok file = true -> nrec <= 65535 ->
+  fst (bt2_leaf_records file addr nrec) <> Panic /\ alloc_bounded 0 720895 file (snd (bt2_leaf_records file addr nrec)) /\
+  forall ids, fst (bt2_leaf_records file addr nrec) = Ok ids ->
+    N.of_nat (length ids) = nrec /\ 6 + 11 * N.of_nat (length ids) <= blen file /\ Forall id_ok ids.
+Proof. exact bt2_leaf_records_spec. Qed.
+Print Assumptions C07_bt2_leaf_bounded.
+
+Theorem C07_fheap_header_no_panic :
+  forall file addr O L, bytes_ok file = true -> L <= 8 ->
+  fst (fh_header_raw file addr O L) <> Panic /\ alloc_bounded 0 144 file (snd (fh_header_raw file addr O L)) /\
+  forall root hos hls, fst (fh_header_raw file addr O L) = Ok (root, hos, hls) -> hos <= 255.
+Proof. exact fh_header_raw_spec. Qed.
+Print Assumptions C07_fheap_header_no_panic.
+
+(* heap id decoding for every offset/length width the header can give *)
+Theorem C07_heap_id_no_panic :
+  forall id hos hls, id_ok id ->
+  parse_heap_id id hos hls <> Panic /\
+  forall off len, parse_heap_id id hos hls = Ok (off, len) -> off < 18446744073709551616 /\ len < 18446744073709551616.
+Proof. exact parse_heap_id_spec. Qed.
+Print Assumptions C07_heap_id_no_panic.
+
+(* direct block object: the length field is checked against the file (ReadBytesAt) before the buffer exists *)
+Theorem C07_heap_object_bounded :
+  forall file blockAddr offset length O hos, O <= 8 -> hos <= 255 -> length < 18446744073709551616 ->
+  fst (read_heap_object file blockAddr offset length O hos) <> Panic /\
+  alloc_bounded 1 284 file (snd (read_heap_object file blockAddr offset length O hos)) /\
+  forall obj, fst (read_heap_object file blockAddr offset length O hos) = Ok obj -> blen obj = length /\ length <= blen file.
+Proof. exact read_heap_object_spec. Qed.
+Print Assumptions C07_heap_object_bounded.
+
+(* readDenseAttributes: no panic, every request <= |file| + 720895, attribute count bounded by the leaf bytes present *)
+Theorem C07_dense_attributes_bounded :
+  forall file fhAddr btAddr O L, bytes_ok file = true -> O <= 8 -> L <= 8 ->
+  fst (dense_read file fhAddr btAddr O L) <> Panic /\
+  alloc_bounded 1 720895 file (snd (dense_read file fhAddr btAddr O L)) /\
+  forall t, fst (dense_read file fhAddr btAddr O L) = Ok t -> 6 + 11 * t <= blen file.
+Proof. exact dense_read_spec. Qed.
+Print Assumptions C07_dense_attributes_bounded.
+
+(* ------------------------------------------------------------------ (c) LZF decompression loop (Model/Filters.v lzf_decompress) *)
+Theorem C07_lzf_no_panic_no_fuel :
+  forall i, Filters.lzf_decompress i <> Filters.OutOfFuel /\ Filters.lzf_decompress i <> Filters.Panic.
+Proof. exact RobustLzf.lzf_decompress_no_panic_no_fuel. Qed.
+Print Assumptions C07_lzf_no_panic_no_fuel.
+
+(* lzfDecompress is given no limit by its caller; the output is bounded by the input: 88 bytes per input byte *)
+Theorem C07_lzf_output_bounded :
+  forall i r, forallb (fun b => b <? 256) i = true -> Filters.lzf_decompress i = Filters.Ok r ->
+              N.of_nat (length r) <= 88 * N.of_nat (length i).
+Proof. exact RobustLzf.lzf_decompress_out_len_N. Qed.
+Print Assumptions C07_lzf_output_bounded.
+
+(* ... and 88 is reached in the limit: 2 + 3k input bytes decode to 1 + 264k bytes *)
+Theorem C07_lzf_output_bound_tight :
+  forall k, exists r, Filters.lzf_decompress ([0; 65] ++ concat (repeat [224; 255; 0] k)) = Filters.Ok r /\
+                      length r = (1 + 264 * k)%nat /\
+                      length ([0; 65] ++ concat (repeat [224; 255; 0] k)) = (2 + 3 * k)%nat.
+Proof. exact RobustLzf.lzf_blowup. Qed.
+Print Assumptions C07_lzf_output_bound_tight.
+
+(* ------------------------------------------------------------------ (d) datatype conversion loops (element loops written out) *)
+(* convertToFloat64: no panic, the loop ends within S n iterations, the result slice is <= 8 |raw|, Ok = all n elements *)
+Theorem C07_convert_float64_loop :
+  forall raw es n, blen raw < 9223372036854775808 -> n < 18446744073709551616 ->
+  fst (conv_float64 raw es n) <> Some Panic /\ fst (conv_float64 raw es n) <> None /\
+  alloc_bounded 8 0 raw (snd (conv_float64 raw es n)) /\
+  forall k, fst (conv_float64 raw es n) = Some (Ok k) -> k = n /\ n * es <= blen raw.
+Proof. exact conv_float64_robust. Qed.
+Print Assumptions C07_convert_float64_loop.
+
+Theorem C07_convert_strings_loop :
+  forall raw ss n, blen raw < 9223372036854775808 -> n < 18446744073709551616 ->
+  fst (conv_strings raw ss n) <> Some Panic /\ fst (conv_strings raw ss n) <> None /\
+  alloc_bounded 16 0 raw (snd (conv_strings raw ss n)).
+Proof. exact conv_strings_robust. Qed.
+Print Assumptions C07_convert_strings_loop.
+
+Theorem C07_convert_compound_loop :
+  forall raw ss members n, blen raw < 9223372036854775808 -> ss < 4294967296 -> n < 18446744073709551616 ->
+  fst (conv_compound raw ss members n) <> Some Panic /\ fst (conv_compound raw ss members n) <> None /\
+  alloc_bounded 8 0 raw (snd (conv_compound raw ss members n)).
+Proof. exact conv_compound_robust. Qed.
+Print Assumptions C07_convert_compound_loop.
